@@ -24,9 +24,25 @@ func fixedInputs(id string) bool { return kit.Scale(id+"FIXED", 1, 1) != 0 }
 
 // ringBuild builds a multi-hashring with ONE default (tenant-less) hashring over a private copy of eps
 // (newSimpleHashring sorts the slice it is given in place, so the caller's slice must not be shared).
-func ringBuild(alg receive.HashringAlgorithm, rf uint64, eps []receive.Endpoint) (receive.Hashring, error) {
+//
+// afterOverride: the configuration lists, BEFORE h0, a hashring for one other tenant that overrides the
+// algorithm (hashmod where the global algorithm is ketama and vice versa) - the documented way to
+// migrate hashrings one at a time. h0 itself has no override and must be built with alg.
+func ringBuild(alg receive.HashringAlgorithm, rf uint64, eps []receive.Endpoint, afterOverride ...bool) (receive.Hashring, error) {
 	cp := append([]receive.Endpoint(nil), eps...)
-	return receive.NewMultiHashring(alg, rf, []receive.HashringConfig{{Hashring: "h0", Endpoints: cp}}, prometheus.NewRegistry())
+	cfg := []receive.HashringConfig{{Hashring: "h0", Endpoints: cp}}
+	if len(afterOverride) > 0 && afterOverride[0] {
+		other := receive.AlgorithmHashmod
+		if alg == receive.AlgorithmHashmod {
+			other = receive.AlgorithmKetama
+		}
+		var legacy []receive.Endpoint
+		for i := 0; i < int(rf)+2; i++ {
+			legacy = append(legacy, receive.Endpoint{Address: "legacy-" + strconv.Itoa(i)})
+		}
+		cfg = append([]receive.HashringConfig{{Hashring: "legacy", Tenants: []string{"legacy-only-tenant"}, Algorithm: other, Endpoints: legacy}}, cfg...)
+	}
+	return receive.NewMultiHashring(alg, rf, cfg, prometheus.NewRegistry())
 }
 
 // ringZoneSizes returns the number of endpoints per distinct AZ value ("" is a zone like any other
